@@ -156,6 +156,14 @@ theorem flags_reset_only_after_success :
     ∀ e ∈ TTGen.C11_Wiring.flagResets, e.2.2.2 = true := by
   decide
 
+/-- **shared_flag_reset_recomputes_all.**  Where several public getters of one object share a single dirty flag
+(`SiteModel.rates` / `probabilities`, the four getters of `TransformedParameter`), every one of them runs — unconditionally
+and before it resets the flag — the same recomputation, so reading them in any order after an update is the same as one
+evaluation of the machine's cell (which the reads table models as ONE cell per flag). -/
+theorem shared_flag_reset_recomputes_all :
+    ∀ e ∈ TTGen.C11_Wiring.sharedFlags, e.2.2 = true := by
+  decide
+
 /-- **failed_eval_keeps_inv.**  A getter call on cell `c` that fails in its own computation has evaluated (some of)
 the cells it reads and then raised, leaving its own cache and flag as they were: the cache-coherence invariant still
 holds and no parameter moved — so by `wellwired_no_stale_from` every later call returns the fresh value (or fails
